@@ -2,6 +2,7 @@
 package main
 
 import (
+	"encoding/json"
 	"flag"
 	"fmt"
 	"os"
@@ -24,6 +25,8 @@ func main() {
 	goarch := flag.String("goarch", "", "GOARCH for loading")
 	noEvidence := flag.Bool("no-evidence", false, "write evidence to a scratch dir (self-test runs)")
 	dump := flag.String("dump", "", "debug: print the SSA of functions whose name contains this string")
+	var extras extraFlags
+	flag.Var(&extras, "extra", "key=path: include the JSON file under coverage[key] of the evidence (repeatable)")
 	flag.Parse()
 	if *dump != "" {
 		c, err := core.Load(*repo, *overlay, *goarch)
@@ -84,6 +87,20 @@ func main() {
 			t0 = time.Now()
 		}
 		rep := core.NewReport(id)
+		for _, e := range extras {
+			kv := strings.SplitN(e, "=", 2)
+			if len(kv) != 2 {
+				continue
+			}
+			b, err := os.ReadFile(kv[1])
+			if err != nil {
+				continue
+			}
+			var v any
+			if json.Unmarshal(b, &v) == nil {
+				rep.Extra[kv[0]] = v
+			}
+		}
 		func() {
 			defer func() {
 				if e := recover(); e != nil {
@@ -104,3 +121,8 @@ func main() {
 	}
 	os.Exit(exit)
 }
+
+type extraFlags []string
+
+func (e *extraFlags) String() string     { return strings.Join(*e, ",") }
+func (e *extraFlags) Set(v string) error { *e = append(*e, v); return nil }
